@@ -961,6 +961,9 @@ func (x *c06Run) quic() {
 		h := hellos[r.IntN(len(hellos))]
 		v := []uint32{c06QuicV1, c06QuicV2}[r.IntN(2)]
 		pl := c06ScatterHello(r, v, h.hs, r.IntN(7) == 0)
+		if pl.ReusedDCID {
+			m.Count("quic_flow_reusing_previous_dcid", 1)
+		}
 		if i%5 == 0 {
 			s, _, err := c06ReassembleDatagrams(pl.Datagrams)
 			if err != nil || !bytes.Equal(s, h.hs) {
